@@ -11,13 +11,13 @@ def add(pid, technique, text, note, ref=None):
 add("C07", "Hypothesis-generated tensor sums; metamorphic (alpha-variants) + differential value oracle in F_p",
     "Generated-input search: thousands of random sums with constructed alpha-equivalent variants; "
     "value of input and output compared exactly on random tensor models over F_p, term-count and "
-    "merge-completeness bounds. Exploration, not proof: bounded term size (<=4 objects + fillers, rank<=3+3).",
+    "merge-completeness bounds; history clause: simplify / set_target_idx / simplify on one Expr vs. a freshly built Expr. Exploration, not proof: bounded term size (<=4 objects + fillers, rank<=3+3).",
     "Trusted: F_p tensor evaluator (self-tested against brute-force loops at every run), Hypothesis, sympy constructors.")
 
 add("C06", "Hypothesis-generated index tuples + exhaustive enumeration of a small tuple domain; oracle: brute-force orbit of the declared symmetry group; metamorphic value check for assumptions",
     "Generated-input search against an orbit-enumeration oracle: sampled tuples (ranks <= 3+3, 20-label pool) and an exhaustively enumerated sub-domain "
-    "(all tuples over six 4-label pools, ranks <= (2,2), every kind and bra-ket value, all ordered pairs: ~2.5e6 comparisons per run); assumptions checked for "
-    "idempotence, locality and value preservation on F_p models that satisfy them.",
+    "(all tuples over six 4-label pools, ranks <= (2,2), every kind and bra-ket value, all ordered pairs: ~2.5e6 comparisons per run); substitution ordered and simultaneous; assumptions (also on tensors inside unexpanded polynomial factors) checked for "
+    "idempotence, locality, re-canonicalisation of every affected tensor and value preservation on F_p models that satisfy them.",
     "Trusted: the orbit enumeration (S_nu x S_nl x Z2 with signs) as specification of 'related by declared symmetry'; F_p evaluator.")
 add("C08", "Hypothesis-generated index maps, permutation sequences, renamings and registry histories; oracle: simultaneous reconstruction, documented name sequence, F_p value, identity invariants",
     "Generated-input search: ordered substitution lists vs. simultaneous reconstruction through the public constructors; permute vs. one-by-one transpositions; "
@@ -31,7 +31,7 @@ add("C09", "Hypothesis-generated delta chains over mixed space/spin indices; dif
     "informative one changes the value; free indices must survive, no new index may appear.",
     "Trusted: F_p evaluator with spin structure; operators enter as position-tagged one-index tensors.")
 add("C20", "Hypothesis-generated products of an orthogonal two-index tensor; differential value oracle with an exactly orthogonal matrix over F_p (Cayley transform)",
-    "Generated-input search: 2-6 U factors incl. powers and constructed resolvable / non-resolvable pairs, remainder tensors, Einstein/explicit targets, evaluate_deltas on/off; "
+    "Generated-input search: 2-6 U factors incl. powers and constructed resolvable / non-resolvable pairs, remainder tensors (exponents -2..2, optionally on the shared index), Einstein/explicit targets, evaluate_deltas on/off; "
     "value compared exactly on F_p models with U U^T = 1. Out-of-domain class (pairs sharing both indices) and the known finding F8 are excluded by construction and counted.",
     "Trusted: Cayley-transform orthogonal matrices (asserted U U^T = 1 at generation), F_p evaluator.")
 
@@ -41,8 +41,8 @@ add("C16", "Hypothesis-generated terms and limit settings; independent step-by-s
     "Trusted: scheme interpreter + F_p evaluator; RuntimeError under explicit limits is a documented refusal. Terms with more than 6 objects are not generated (scheme enumeration is exponential).")
 
 add("C10", "Hypothesis-generated terms/expressions; oracle: reported symmetries re-applied by independent reconstruction and valued in F_p, exploit_perm_sym parts re-expanded by axis swaps, independent re-implementation of the documented sort keys",
-    "Generated-input search in three sub-domains: (a) every reported entry of Term/Obj.symmetry must hold in value on 2 models; (b) exploit_perm_sym on constructed (1 +- P)(1 +- P')T expressions with generated target strings, "
-    "bra-ket symmetry and result-tensor kind must reproduce the value; (c) the five sort functions and filter_tensor must be lossless and key-correct.",
+    "Generated-input search in four sub-domains: (a) every reported entry of Term/Obj.symmetry must hold in value on 2 models; (b) exploit_perm_sym on constructed (1 +- P)(1 +- P')T expressions (optionally with one term split into two renamed copies, i.e. not fully simplified input) with generated target strings, "
+    "bra-ket symmetry and result-tensor kind must reproduce the value; (c) the five sort functions and filter_tensor must be lossless and key-correct; (d) sequences of symmetry requests (products of 1-3 transpositions incl. cyclic products and the reversed product) on one LazyTermMap: every reported entry i -> j must satisfy P term_i = factor term_j in value.",
     "Trusted: rebuild(), F_p evaluator, own key implementation. Terms whose symmetry enumeration is factorial (> 5 index occurrences per class) are not generated.")
 add("C13", "Hypothesis-generated orbital-energy fractions, sums and Fock terms; differential value oracle on F_p models with random orbital energies (D := reciprocal bracket, f := diag(e) / block diagonal)",
     "Generated-input search: split/rebuild, sign canonicalisation, numerator symmetrisation, fraction cancellation, symbolic<->explicit denominators (both directions), grouping functions, Fock (block-)diagonalisation; "
@@ -55,7 +55,7 @@ add("C14", "Hypothesis-generated expressions with a designated tensor; oracle: e
 
 add("C17", "Hypothesis-generated expressions and generate_code settings; the emitted program text is parsed and executed by an independent einsum/libtensor interpreter on an F_p model (translation validation by differential execution)",
     "Generated-input search: terms with identical free indices incl. traces, outer products, nested and hyper-contractions, constructed (1 +- P) symmetrisations, target strings with/without ',' and spin, "
-    "bra-ket symmetry, result-tensor kind, both backends, optimised/unoptimised, limits; program value (prefactors, block names, index strings, nesting, permutation operators) == value of the expression.",
+    "bra-ket symmetry, result-tensor kind, both backends, optimised/unoptimised, limits, symbol prefactors incl. powers and divisions by a symbol (refusal or correct code); program value (prefactors, block names, index strings, nesting, permutation operators) == value of the expression.",
     "Trusted: the dialect interpreters (self-tested on hand-written programs at every run), F_p evaluator. Refusals: NotImplementedError, Inputerror, RuntimeError under explicit limits.")
 add("C18", "Hypothesis-generated printable expressions + a pool of real derivation/transformation outputs; round-trip oracle (print -> import -> re-assume) with value in F_p, tensor kinds and re-printed text",
     "Generated-input search: every printable object kind incl. operators, NO groups, spins, numbered names, fractions with bracket powers, sqrt/rational prefactors under generated assumptions; plus 26 library outputs x 4 post-processings per run.",
@@ -68,7 +68,8 @@ add("C01", "Hypothesis-generated operator products; oracle: Fermi-vacuum expecta
 
 add("C15", "Hypothesis-generated spin-orbital expressions and target spin strings; differential value oracle on one spin-structured F_p model (spin-conserving Coulomb integrals, antisymmetrised V, spin-conserving amplitudes)",
     "Generated-input search: integrate_spin / transform_to_spatial_orbitals (expand_eri on/off, restricted on/off) for sampled target spin blocks and generated target orders; value of the output on spatial orbitals == value of the "
-    "input on the spin orbitals of the requested spins; restricted case on models whose tensors depend on spatial labels only; non-reported blocks of allowed_spin_blocks must vanish.",
+    "input on the spin orbitals of the requested spins; restricted case on models whose tensors depend on spatial labels only; non-reported blocks of allowed_spin_blocks must vanish. Also terms with explicit targets that carry a polynomial factor "
+    "(orbital energies and integrals on the target indices to the power -2..2, e.g. an Epstein-Nesbet like denominator).",
     "Trusted: spin-structured F_p model (V built from (pq|rs) with spin conservation; symmetry asserted in the self test). Tensors without known spin blocks are modelled with all blocks non-zero.")
 
 add("C02", "Hypothesis-drawn derivation requests and model Hamiltonians; reference model = Rayleigh-Schroedinger PT by explicit linear algebra in determinant space over F_p",
@@ -78,10 +79,10 @@ add("C02", "Hypothesis-drawn derivation requests and model Hamiltonians; referen
 
 add("C03", "Hypothesis-drawn secular-matrix requests and model Hamiltonians; reference model = explicit intermediate-state construction (RSPT, Gram-Schmidt, S^-1/2 matrix power series) in determinant space over F_p",
     "Generated-input search: isr_matrix_block / precursor_matrix_block / mvp_block_order for pp, ip, ea, dip, dea, diagonal and coupling blocks of the two lowest classes, orders <= 2 (3 for the lowest class in the thorough tier), subtract_gs on/off, "
-    "generated index names, 4 model sizes, canonical and non-canonical Fock matrices; every element for every bra/ket assignment compared exactly; transpose relation between independently derived blocks; block_order vs. the ADC(n) rule.",
+    "generated index names, 4 model sizes, canonical and non-canonical Fock matrices; every element for every bra/ket assignment compared exactly; transpose relation between independently derived blocks; block_order vs. the ADC(n) rule; mvp / expectation_value (block-wise and summed over the ADC(n) blocks) vs. M Y and X^T M Y; one fixed third-order coupling block (phh,h).",
     "Trusted: fock.py, rspt.py, isr.py (self test: orthonormality of the explicit states order by order, M symmetric). Expensive blocks are capped in order (see N/caps in c03.py).")
 add("C04", "Hypothesis-drawn overlap requests evaluated on random amplitude tensors; oracle: antisymmetrised delta product from bit-string algebra at zeroth order, zero array otherwise; symmetry of the precursor overlap",
-    "Generated-input search: overlap_isr for all five variants, class pairs, orders <= 2 (3), mp/re, with/without first-order singles, generated index names, complex-conjugate amplitudes aliased or independent; "
+    "Generated-input search: overlap_isr for all five variants, class pairs, orders <= 2 (3), mp/re, with/without first-order singles (objects of all configurations live in one process and receive the same canonical request strings), generated index names, complex-conjugate amplitudes aliased or independent; "
     "the (unsimplified) derived overlap must cancel numerically for arbitrary amplitude values.",
     "Trusted: F_p evaluator, fock.vev. No Hamiltonian is involved: the identity is algebraic in the amplitudes.")
 
